@@ -2170,6 +2170,11 @@ func (s *swamp) SaveFunction(t treasure.Treasure, guardID guard.ID) treasure.Tre
 		s.sendEventToHydra(t, nil, treasure.StatusNew)
 		s.sendSwampInfo()
 
+		// The flags have been acted on. Without clearing them (while the guard is
+		// still ours) every later save of this record counts as a modification,
+		// even one that stores the identical value again.
+		t.ResetChangeFlags(guardID)
+
 		// immediately write the treasure to the chroniclerInterface if the write interval is 0
 		s.mu.RLock()
 		wi := s.writeInterval
@@ -2230,6 +2235,10 @@ func (s *swamp) SaveFunction(t treasure.Treasure, guardID guard.ID) treasure.Tre
 
 		// send the event to the hydra
 		s.sendEventToHydra(t, existedTreasureObj, treasure.StatusModified)
+
+		// The flags have been acted on; clear them while the guard is still ours
+		// so that the next save is judged on what it changes itself.
+		t.ResetChangeFlags(guardID)
 
 		// immediately write the treasure to the chroniclerInterface if the write interval is 0
 		s.mu.RLock()
